@@ -115,6 +115,14 @@ type BlockInfo struct {
 	Writers atomic.Int32
 	// Totals.
 	Gets, Puts int32
+	// Allocs mirrors the sequential allocations inside the block.
+	Allocs []Alloc
+	cursor int64
+}
+
+// Alloc is one allocation inside a block.
+type Alloc struct {
+	Off, Size int64
 }
 
 // AllocMon wraps a BlockAllocator.
@@ -135,6 +143,7 @@ type AllocMon struct {
 	DurableListed func(region int64) bool
 	// OnNewBlock is called after every successful NewBlock.
 	OnNewBlock func(b *BlockInfo)
+	SectorSize int
 	ctx        sync.Map // goroutine id -> *BlockInfo (current Get)
 }
 
@@ -197,6 +206,9 @@ func (am *AllocMon) NewBlockAtLocation(loc *pb.BlockLocation, writeOffset int64)
 	am.mu.Lock()
 	defer am.mu.Unlock()
 	info := &BlockInfo{ID: len(am.Blocks), Region: loc.OffsetBytes, Restored: true}
+	if am.SectorSize > 0 {
+		info.cursor = (writeOffset + int64(am.SectorSize) - 1) / int64(am.SectorSize) * int64(am.SectorSize)
+	}
 	am.Blocks = append(am.Blocks, info)
 	return &blockMon{inner: b, info: info, am: am}, true
 }
@@ -249,6 +261,10 @@ func (b *blockMon) HasSpace(size int64) bool { return b.inner.HasSpace(size) }
 
 func (b *blockMon) Put(size int64) local.BlockPutWriter {
 	atomic.AddInt32(&b.info.Puts, 1)
+	b.am.mu.Lock()
+	b.info.Allocs = append(b.info.Allocs, Alloc{Off: b.info.cursor, Size: size})
+	b.info.cursor += size
+	b.am.mu.Unlock()
 	b.info.Writers.Add(1)
 	w := b.inner.Put(size)
 	return func(buf buffer.Buffer) local.BlockPutFinalizer {
@@ -563,7 +579,7 @@ func Build(cfg Config, m *Media, opt Options) (*Store, error) {
 
 	var inner local.BlockAllocator
 	sectorSize, blockSectors := cfg.SectorSize, int64(cfg.BlockSectors)
-	st.Alloc = &AllocMon{}
+	st.Alloc = &AllocMon{SectorSize: cfg.SectorSize}
 	st.Factory = &FactoryMon{inner: base, am: st.Alloc}
 	if cfg.BlockDevice {
 		inner = local.NewBlockDeviceBackedBlockAllocator(m.Data, st.Factory, sectorSize, blockSectors, cfg.BlockCount(), storageType)
